@@ -1,2 +1,56 @@
-(* C03 — statements are added as the proofs land; placeholder so the build has the file *)
-From Verif Require Import Base.Bytes Store.Model.
+(* C03 — stored hashes always equal the Merkle hash of current content.
+   Statements only; proofs in Store/ProofsHash.v and Store/ProofsTop.v.
+   [Inv st]: for every edge, hash = XOR of the CRCs of the node points of its
+   lower node, of its edge points, and of the hashes of all child edges. *)
+From Verif Require Import Base.Bytes Store.GraphCount Store.GraphWalk Store.Model Store.ProofsRows Store.ProofsHash Store.ProofsTop.
+From Verif Require Import Properties.StoreExample.
+Local Open Scope N_scope.
+
+(* every state reachable by any history of requests (node points, edge points, points-first or
+   edge-first creation, mirrors, diamonds, edges above populated subtrees, deletions, re-deliveries,
+   stale and refused writes) from a well-formed state satisfying the equation satisfies it again *)
+Theorem C03_inv_reachable :
+  forall ops st, wf st -> Inv st -> Forall op_ok ops -> wf (run st ops) /\ Inv (run st ops).
+Proof. exact run_inv. Qed.
+Print Assumptions C03_inv_reachable.
+
+Theorem C03_node_write :
+  forall st id pts st', wf st -> Inv st -> node_points st id pts = Ok st' -> wf st' /\ Inv st'.
+Proof. exact node_points_inv. Qed.
+Print Assumptions C03_node_write.
+
+Theorem C03_edge_write :
+  forall st id par pts st', wf st -> Inv st -> par <> [] -> id <> str_none ->
+    edge_points st id par pts = Ok st' -> wf st' /\ Inv st'.
+Proof. exact edge_points_inv. Qed.
+Print Assumptions C03_edge_write.
+
+(* a point's checksum depends on exactly its time, type, key, text and value *)
+Theorem C03_crc_depends_exactly :
+  forall p q, p_time p = p_time q -> p_type p = p_type q -> p_key p = p_key q -> p_text p = p_text q ->
+    p_val p = p_val q -> point_crc p = point_crc q.
+Proof. exact crc_depends_exactly. Qed.
+Print Assumptions C03_crc_depends_exactly.
+
+(* the graph-theoretic core: toggling every edge visited by the upward recursion once per visit
+   re-establishes the equation after the content of one node / one edge changed by d *)
+Theorem C03_path_parity_node :
+  forall (G : list edge), NoDup (map e_id G) ->
+  forall (L L' H : N -> N) (F : nat) (x : bytes) (d : N),
+    GraphCount.Inv bytes bytes_eqb edge e_id e_up e_down G L H ->
+    GraphCount.visits bytes bytes_eqb edge e_id e_up e_down G (S F) x = GraphCount.visits bytes bytes_eqb edge e_id e_up e_down G F x ->
+    (forall e, In e G -> L' (e_id e) = if bytes_eqb (e_down e) x then N.lxor (L (e_id e)) d else L (e_id e)) ->
+    GraphCount.Inv bytes bytes_eqb edge e_id e_up e_down G L'
+      (fun id => N.lxor (H id) (GraphCount.tog d (GraphCount.par (GraphCount.visits bytes bytes_eqb edge e_id e_up e_down G F x) id))).
+Proof. exact (GraphCount.node_update_preserves_inv bytes bytes_eqb bytes_eqb_eq edge e_id e_up e_down). Qed.
+Print Assumptions C03_path_parity_node.
+
+(* non-vacuity: the example history reaches a state with a diamond, a deleted edge and points,
+   and that state is well formed and satisfies the equation *)
+Example C03_example : wf ex_st /\ Inv ex_st.
+Proof. apply run_inv; [exact wf_st0|exact inv_st0|exact ex_ops_ok]. Qed.
+
+Example C03_example_shape :
+  map (fun e => (e_up e, e_down e, negb (e_hash e =? 0))) (s_edges ex_st) =
+  [ (str_root, id_r, true); (id_r, id_a, true); (id_r, id_b, true); (id_a, id_c, true); (id_b, id_c, true) ].
+Proof. vm_compute. reflexivity. Qed.
